@@ -31,7 +31,7 @@ ASSUMPTIONS = [
 ]
 NOT_COVERED = ['_parse_condition (string theory): exhaustive enumeration over comparators x literal shapes x names - bounded',
                'cache on/off equality (beyond: the slice cache is the run decomposition of the label vector - proved), chain metrics, chain positions, tabular exports - bounded stand-in',
-               'augmented-mode metrics: bounded stand-in only (histories with cache on and off against one reference)']
+               'augmented-mode metrics: the two routes to the augmented cycle (augment_slice, map_cycle_to_samples_augmented) are proved against one specification; the metric histories on top of them are bounded (cache on and off against one reference)']
 
 NC = z3.Int('ncycles')
 OPS = {'==': 'equal', '!=': 'not_equal', '<': 'less', '<=': 'less_equal', '>': 'greater', '>=': 'greater_equal'}
@@ -191,7 +191,74 @@ def units(tier):
     # the slice cache (the cache-on route of every per-cycle metric): the run decomposition of the label vector at its unit steps (C13 unit)
     from contracts import C13
     U.append(C13.slice_cache_unit())
+    U += augmented_units()
     return U
+
+
+# ----------------------------------------------------------------------------- augmented cycles: the two routes to "the cycle plus the run back to the trough on its left"
+#
+# spec: for a cycle occupying the samples [a, b) of a phase series, the augmented cycle starts right after the CLOSEST sample on the left whose
+# phase is below 3 pi / 2 (so: every sample of [a2, a) is at or above 3 pi / 2 and sample a2 - 1 is below), and it does not exist when no
+# sample on the left is below 3 pi / 2.  augment_slice (cache on) and map_cycle_to_samples_augmented (cache off) both have to say exactly this.
+NA = z3.Int('NA')
+A0, B0 = z3.Ints('cyc_start cyc_stop')
+PHA = z3.Function('aug_phase', I, R)
+
+
+def _aug_spec(c, start, stop_ok, none):
+    i = z3.Int('aq')
+    lim = 3 * PI / 2
+    if none:
+        c.oblige('post:no-augmented-cycle-only-when-no-sample-on-the-left-is-below-3pi/2', z3.Implies(z3.And(0 <= i, i < A0), PHA(i) >= lim), 'post')
+        return
+    c.oblige('post:augmented-cycle-ends-where-the-cycle-ends', stop_ok, 'post')
+    c.oblige('post:starts-right-after-the-closest-sample-below-3pi/2-on-the-left', z3.And(1 <= start, start <= A0, PHA(start - 1) < lim), 'post')
+    # (stated by the offset from the cycle start, the form in which the code's `np.where(np.flipud(...))` enumerates the samples; the
+    #  statement by sample index follows from it)
+    c.oblige('post:every-added-sample-is-at-or-above-3pi/2:by-offset', z3.Implies(z3.And(0 <= i, i < A0 - start), PHA(A0 - 1 - i) >= lim), 'post')
+    c.oblige('post:every-added-sample-is-at-or-above-3pi/2', z3.Implies(z3.And(start <= i, i < A0), PHA(i) >= lim), 'post')
+
+
+def augmented_units():
+    import emd._cycles_support as CS
+
+    def common(c):
+        for ax in npshim.pi_axioms():
+            c.assume(ax)
+        c.assume(z3.And(NA >= 1, 0 <= A0, A0 < B0, B0 <= NA))
+        return SArr((NA,), lambda i: PHA(i), 'f')
+
+    def mk_slice(c):
+        ph = common(c)
+        return (slice(SInt(A0), SInt(B0)), ph), {}
+
+    def post_slice(c, a, kw, r):
+        if r is None:
+            _aug_spec(c, None, None, True)
+        else:
+            _aug_spec(c, lift(r.start), lift(r.stop) == B0, False)
+
+    def mk_map(c):
+        ph = common(c)
+        ii = z3.Int('cyc_index')
+        CV = z3.Function('aug_cv', I, I)
+        i = z3.Int('cvi')
+        c.assume(ii >= 0)
+        # the label vector carries label ii exactly on [A0, B0)
+        c.assume(z3.ForAll([i], z3.Implies(z3.And(0 <= i, i < NA), (CV(i) == ii) == z3.And(A0 <= i, i < B0)), patterns=[CV(i)]))
+        return (SArr((NA,), lambda q: CV(q), 'i'), SInt(ii), ph), {}
+
+    def post_map(c, a, kw, r):
+        if r is None:
+            _aug_spec(c, None, None, True)
+            return
+        n = r.shape_e[0]
+        q = z3.Int('mq')
+        c.oblige('post:consecutive-sample-indices', z3.And(n >= 1, z3.Implies(z3.And(0 <= q, q < n), r.elem(q) == r.elem(z3.IntVal(0)) + q)), 'post')
+        _aug_spec(c, r.elem(z3.IntVal(0)), r.elem(n - 1) == B0 - 1, False)
+    CSP = 'emd/_cycles_support.py'
+    return [Unit('augment_slice', CSP, 'augment_slice', mk_slice, post_slice, module=CS),
+            Unit('map_cycle_to_samples_augmented', CSP, 'map_cycle_to_samples_augmented', mk_map, post_map, module=CS)]
 
 
 def model_witness(unit_name, model):
